@@ -277,8 +277,6 @@ Definition deviation_witnesses : list (string * list value) := [
   ("~{~A~^,~}", [ints [1; 2; 3]]);                                   (* caret *)
   ("~A~^ more", [VInt 1]);
   ("~&x", []);                                                        (* fresh line at the start of the output *)
-  ("~%~{~&~A~}", [ints [1]]);                                         (* ... and inside a block *)
-  ("abc~{~5T~A~}", [ints [1]]);                                       (* column inside a block *)
   ("abc~2,4T|", []);                                                  (* ~colnum,colincT *)
   ("~T|", [])
 ]%Z.
